@@ -3,6 +3,7 @@
 package props
 
 import (
+	"go/ast"
 	"go/types"
 	"sort"
 	"strings"
@@ -114,6 +115,27 @@ func mergeIdiom(c *an.Ctx, id, title string, fns map[string]int, label string) {
 			continue
 		}
 		n := f.MergeProgress(r, label)
+		if n < fns[spec] {
+			// the merge may have been extracted into a helper of the package
+			seen := map[*types.Func]bool{f.Src.Obj: true}
+			ast.Inspect(f.Body, func(m ast.Node) bool {
+				ce, ok := m.(*ast.CallExpr)
+				if !ok {
+					return true
+				}
+				cal := an.Callee(f.Info, ce)
+				if cal == nil || seen[cal] || cal.Pkg() != f.Pkg.Types {
+					return true
+				}
+				seen[cal] = true
+				if src := c.P.Src(cal); src != nil && src.Decl.Body != nil {
+					if hf := c.P.Fn(src); hf != nil {
+						n += hf.MergeProgress(r, label)
+					}
+				}
+				return true
+			})
+		}
 		total += n
 		if n < fns[spec] {
 			r.Fail(f.Name+": merge loops", c.P.Pos(f.Body.Pos()), "%s: %d two-cursor merge loop(s) that compare the two lists recognised, %d confirmed by hand on the pinned tree — the merge was rewritten into a shape the idiom check cannot decide", f.Name, n, fns[spec])
